@@ -537,6 +537,7 @@ pub fn run(ctx: &Ctx) {
     let sc = structured_cases(ctx);
     ctx.enumerate("structured_digests", sc.len() as u64, false, |i| sc[i as usize].clone(), |c: &StructCase| check_structured(ctx, c));
     ctx.require_class("structured_digests", "sha256_256|w4|equal-word-aligned");
+    ctx.require_class("structured_digests", "sha256_256|w8|zero-word-aligned");
 
     // the verifier's side of the encoding: signatures whose chain values sit at chosen positions
     let mut vc: Vec<VerifierCase> = Vec::new();
